@@ -140,4 +140,13 @@ PLAN = {
         "trusted_base": BASE_TRUST,
         "assumptions": BASE_ASSUME + ["Go's sync.Mutex, defer and goroutine semantics; the skeleton abstraction (events inside non-error branches are unconditional, loop bodies run once) is sound for the balance at exits because loop bodies are lock-neutral (decided)", "source-read faults are not injected (the write cache is the source); open faults are covered statically only"],
     },
+    "C14": {
+        "streams": {
+            "quick": [fs(96, 40, "C14", mode="file", rs="20,3")],
+            "thorough": [fs(2000, 48, "C14", mode="file", rs="20,1,3,7", timeout=7000), fsp(288, 40, "C14", pipes=PIPES_QUICK, mode="file", rs="20", timeout=7000)],
+        },
+        "generated": ["Stfs/Gen/Guards.lean"],
+        "trusted_base": BASE_TRUST,
+        "assumptions": BASE_ASSUME + ["the write cache is the file-backed cache (os.File semantics); the memory cache (mattetti/filebuffer) is outside the model where it overwrites inside the buffer", "the reference is Spec/ByteFile.lean; end-of-file may be signalled together with the last bytes (allowed by io.Reader)"],
+    },
 }
